@@ -1816,4 +1816,78 @@ example :
     ∧ binsGet tI ["c0", "c1"] 0 (some 2) (.one "chrom") = binsGet tE ["c0", "c1"] 0 (some 2) (.one "chrom") := by
   decide
 
+/-! ## 8. Categorical (enum) columns of any table: labels, categories that never occur, missing entries -/
+
+/-- the code `put` stores for one entry of a `pandas.Categorical` with categories `cats`
+(`data.cat.codes`): the position of its label, `-1` for a missing entry -/
+def catCode (cats : List String) : Option String → Int
+  | none => -1
+  | some s => (cats.idxOf s : Int)
+
+/-- the cell a reader must see for one entry: the label itself, `NaN` where none was stored -/
+def labelVal : Option String → Val
+  | none => .nan
+  | some s => .str s
+
+/-- **fromCode_missing** — a negative stored code (the `-1` of a missing entry) decodes to `NaN`
+whatever the categories are … -/
+theorem fromCode_missing (cats : List String) (c : Int) (h : c < 0) : fromCode cats (.int c) = .nan := by
+  simp [fromCode, h]
+
+/-- … in particular never to a category name -/
+theorem missing_label_not_category (cats : List String) (s : String) :
+    fromCode cats (.int (-1)) ≠ .str s := by
+  rw [fromCode_missing cats (-1) (by omega)]
+  exact fun h => Val.noConfusion h
+
+/-- a stored position decodes to the category at that position -/
+theorem fromCode_member (cats : List String) (k : Nat) (h : k < cats.length) :
+    fromCode cats (.int (k : Int)) = .str cats[k] := by
+  have h0 : ¬ ((k : Int) < 0) := by omega
+  simp [fromCode, h0, List.getElem?_eq_getElem h]
+
+/-- **categorical_roundtrip** — what `put` stores for a categorical column (header
+`dict(zip(cats, range(len(cats))))`, cells `catCode`) is decodable and reads back, entry by entry, as the
+label that was stored — and as `NaN` where no label was stored; categories that never occur, their order
+and their number play no role. -/
+theorem categorical_roundtrip (cats : List String) (lab : Option String)
+    (h : ∀ s, lab = some s → s ∈ cats) :
+    codeOk (categoriesOf (idmapFrom 0 cats)) (.int (catCode cats lab)) = true
+    ∧ fromCode (categoriesOf (idmapFrom 0 cats)) (.int (catCode cats lab)) = labelVal lab := by
+  rw [categoriesOf_idmap]
+  cases lab with
+  | none => exact ⟨by simp [codeOk, catCode], by simp [catCode, labelVal, fromCode]⟩
+  | some s =>
+    have hs : s ∈ cats := h s rfl
+    have hlt : cats.idxOf s < cats.length := List.idxOf_lt_length_of_mem hs
+    refine ⟨?_, ?_⟩
+    · have h1 : (0 : Int) ≤ ((cats.idxOf s : Nat) : Int) := by omega
+      have h2 : ((cats.idxOf s : Nat) : Int) < (cats.length : Int) := by omega
+      simp [codeOk, catCode, h1, h2]
+    · simp only [catCode, labelVal]
+      rw [fromCode_member cats _ hlt, List.getElem_idxOf]
+
+/-- the same through `get`: the cell of an enum column written by `put` is the stored label -/
+theorem cell_categorical (t : Stored) (r : Row) (f : String) (k : Nat) (cats : List String)
+    (lab : Option String) (h : ∀ s, lab = some s → s ∈ cats)
+    (hk : lookupCol t.cols f = some (k, .enum (idmapFrom 0 cats)))
+    (hv : r[k]? = some (.int (catCode cats lab))) :
+    cellOk t r f = true ∧ cell t r f = labelVal lab := by
+  have hrt := categorical_roundtrip cats lab h
+  refine ⟨?_, ?_⟩
+  · unfold cellOk; rw [hk]; simp only [hv]; exact hrt.1
+  · rw [cell_enum t r f k _ _ hk hv]; exact hrt.2
+
+/-- non-vacuity: categories `C, A, B` (not sorted, `C` never occurs), labels `A, -, B` read through
+`api.bins` as a Series and inside a frame -/
+example :
+    let cats := ["C", "A", "B"]
+    let t : Stored := ⟨[("chrom", .enum [("c0", 0)]), ("comp", .enum (idmapFrom 0 cats)), ("start", .int)],
+      [[.int 0, .int (catCode cats (some "A")), .int 0], [.int 0, .int (catCode cats none), .int 10],
+       [.int 0, .int (catCode cats (some "B")), .int 20]]⟩
+    binsGet t ["c0"] 0 (some 3) (.one "comp") = .ok ⟨["comp"], [0, 1, 2], [[.str "A"], [.nan], [.str "B"]], true⟩
+    ∧ binsGet t ["c0"] 1 (some 3) (.many ["start", "comp"])
+      = .ok ⟨["start", "comp"], [1, 2], [[.int 10, .nan], [.int 20, .str "B"]], false⟩ := by
+  decide
+
 end Cooler.C14
